@@ -13,9 +13,15 @@ package pages
 //@   ensures never_more_than_the_leaves: !err ==> n <= len(t.pages)
 
 // The page tree is walked recursively along /Kids, which a corrupt file can close into a cycle.
+// An intermediate /Pages node is descended into at most once in the whole walk (visitedNodes only grows; a node
+// already recorded is refused), so sharing cannot multiply the leaves: the walk is linear in the /Kids entries.
 //@ func (*PageTree) traversePageNode results (err)
 //@   property C02
 //@   decreases 4097 - depth
+//@   ensures visited_nodes_only_grow: forall k int :: {t.visitedNodes[k]} has(old(t.visitedNodes), k) && old(t.visitedNodes)[k] ==> has(t.visitedNodes, k) && t.visitedNodes[k]
+//@   loop 0:
+//@     invariant forall k int :: {t.visitedNodes[k]} has(old(t.visitedNodes), k) && old(t.visitedNodes)[k] ==> has(t.visitedNodes, k) && t.visitedNodes[k]
+//@     step intermediate_kid_was_not_visited_before: isRef && istype(kidDict.Get("Type"), core.Name) && astype(kidDict.Get("Type"), core.Name) == "Pages" ==> !(has(prev(t.visitedNodes), kidRef.Number) && prev(t.visitedNodes)[kidRef.Number]) && has(t.visitedNodes, kidRef.Number) && t.visitedNodes[kidRef.Number]
 
 // ---- C11: the page height handed to the header/footer filter is this page's height ----
 // (Height is a deterministic function of the page: MediaBox only reads the page dictionary and its ancestors)
